@@ -13,7 +13,7 @@ func c09(r *core.Run) {
 	// case index = (boundary literal, position kind) -> the grid is enumerated
 	// completely once per 14*len(literals) indices; further passes vary the
 	// random sub-choices (type, container, typedef)
-	n := uint64(r.Pick(14*260*3, 14*260*60))
+	n := uint64(r.Pick(14*300*3, 14*300*60))
 	r.RunChildren(core.ChildSpec{Bin: bin, Monitor: "c09", Stream: "grid", From: 0, To: n, Timeout: 20 * time.Minute})
 	r.Require("accepted", 200)
 	r.Require("rejected", 200)
